@@ -4,11 +4,12 @@
 
    Reading guide.  [E key] / [D key] are the forward / inverse block cipher under [key];
    [res] is Ok / Err sentinel / Panic; [Fixed] = the current tree, [Original] = the tree before
-   the fix named beside the theorem.  "AES decryption inverts AES encryption" is a PREMISE
-   wherever it is needed ([aes_inverts], never an axiom); AES-GCM and (X)ChaCha20-Poly1305
-   need no premise. *)
+   the fix named beside the theorem.  The scheme-level theorems hold for ANY block cipher with
+   D key (E key b) = b (a premise, never an axiom); for AES itself that fact is PROVED
+   (C03_aes_decrypt_encrypt), so the theorems about the package's entry points carry no
+   cryptographic premise at all. *)
 From Kit Require Import C03.Model C03.Spec C03.Check C03.KAT C03.Proofs_pad C03.Proofs_schemes
-  C03.Proofs C03.Proofs_roundtrip C03.Proofs_dispatch C03.Proofs_total C03.Proofs_oracle.
+  C03.Proofs C03.Proofs_AES C03.Proofs_roundtrip C03.Proofs_dispatch C03.Proofs_total C03.Proofs_oracle.
 
 (* ---- crypto/padding ---------------------------------------------------------------- *)
 
@@ -162,18 +163,46 @@ Print Assumptions C03_chacha_roundtrip.
 
 (* ---- round trip at the level of EncryptSymmetric / DecryptSymmetric ------------------ *)
 
+(* AES decryption inverts AES encryption, for the Gallina AES-128/192/256 the model and the
+   reference implementations use: every key (of any length), every block of sixteen bytes. *)
+Theorem C03_aes_decrypt_encrypt : forall key b : list N,
+  List.length b = 16 -> bytes_ok b = true ->
+  aes_decrypt_block key (aes_encrypt_block key b) = b.
+Proof. exact aes_decrypt_encrypt_block. Qed.
+Print Assumptions C03_aes_decrypt_encrypt.
+
 (* Current tree.  For EVERY algorithm name, key object, nonce, associated data and plaintext of
    bytes: whatever EncryptSymmetric returns, DecryptSymmetric (either variant of the two repaired
-   length checks) turns back into the plaintext.  Premise: AES decryption inverts AES
-   encryption.  No special case: key wrap of empty key data is now an error. *)
+   length checks) turns back into the plaintext.  NO premise: AES is proved invertible above,
+   AES-GCM and (X)ChaCha20-Poly1305 never needed one. *)
 Theorem C03_symmetric_roundtrip :
-  (forall key, aes_inverts key) ->
   forall (vkw vopen : variant) (alg : string) (key : keyobj) (nonce aad pt ct tag : list N),
   bytes_ok nonce = true -> bytes_ok pt = true ->
   encrypt_symmetric Fixed alg key nonce aad pt = Ok (ct, tag) ->
   decrypt_symmetric vkw vopen alg key nonce tag aad ct = Ok pt.
-Proof. exact symmetric_roundtrip. Qed.
+Proof. exact symmetric_roundtrip_aes. Qed.
 Print Assumptions C03_symmetric_roundtrip.
+
+(* The AES instances of the scheme theorems, premise-free: AES-CBC with (nopad = false) and
+   without PKCS#7 as EncryptSymmetric drives it, aeskw.Wrap / Unwrap, the four aescbcaead AEADs. *)
+Theorem C03_aes_cbc_roundtrip : forall (alg : string) (nopad : bool) (key iv pt ct tag : list N),
+  bytes_ok iv = true -> bytes_ok pt = true ->
+  encrypt_cbc alg nopad key iv pt = Ok (ct, tag) -> decrypt_cbc alg nopad key iv ct = Ok pt.
+Proof. exact aes_cbc_roundtrip. Qed.
+Print Assumptions C03_aes_cbc_roundtrip.
+
+Theorem C03_aeskw_roundtrip : forall (v : variant) (key cek c : list N),
+  bytes_ok cek = true -> aeskw_wrap Fixed key cek = Ok c -> aeskw_unwrap v key c = Ok cek.
+Proof. exact aeskw_roundtrip_aes. Qed.
+Print Assumptions C03_aeskw_roundtrip.
+
+Theorem C03_aescbcaead_roundtrip :
+  forall (v : variant) (k : cbchmac_kind) (key nonce pt aad : list N) (c : cbchmac),
+  aescbcaead_new k key = Some c -> List.length nonce = 16 ->
+  bytes_ok nonce = true -> bytes_ok pt = true ->
+  exists out, aescbcaead_seal k c nonce pt aad = Ok out /\ aescbcaead_open v k c nonce out aad = Ok pt.
+Proof. exact aescbcaead_roundtrip_aes. Qed.
+Print Assumptions C03_aescbcaead_roundtrip.
 
 (* ---- tampering ------------------------------------------------------------------------ *)
 
